@@ -923,5 +923,18 @@ class SchedulingSolver(BaseModelWithJson):
             smt2_text = self._solver.sexpr()
         else:
             smt2_text = self._solver.to_smt2()
+        if self.debug:
+            # in debug mode each assertion is tracked: z3 stores it as `literal => assertion`
+            # and assumes the literals at each check. Assert them, so that the exported
+            # problem is the one the solver checks
+            literals = [
+                asst.arg(0) for asst in self._solver.assertions() if z3.is_implies(asst)
+            ]
+            asserted_literals = "".join(f"(assert {lit.sexpr()})\n" for lit in literals)
+            head, check_sat, tail = smt2_text.rpartition("(check-sat)")
+            if check_sat:
+                smt2_text = head + asserted_literals + check_sat + tail
+            else:
+                smt2_text += asserted_literals
         with open(smt_filename, "w", encoding="utf-8") as outfile:
             outfile.write(smt2_text)
